@@ -4,6 +4,21 @@
 // reader's object they ended up pointing to).
 //   stdin : "case <id> <magic-hex> <version> <name-hex|->", items (see ocaml/C10_driver.ml), "end"
 //   stdout: "case <id>", "b <hex>", one "m <item>" line per item, "end"
+// Objects: "B <class> <id> [ body ]" is loaded into an object the host owns (arc.ArchiveObject(obj)); "N <class> <id> [ body ]"
+// is written the same way but loaded with arc.ReadObject<T>() (the Archiver creates the instance; when the load fails the host
+// owns nothing).  The plain / weak pointers of a body are MEMBERS of the host object (the first 8 of them).
+// Script variables:  "V <key> <token> <token> ..."  key: * = ArchiveInternal, ~ = Archive with no key
+// string, hex = Archive with that key.  The tokens are the variable and everything it contains in
+// archive order (depth first, keys and values of an array alternating):  <vid>:<kind>[:args]
+//   n | s:<hex|-> | i:<hex> | f:<hex> | c:<hex> | k:<hex>|k:~ | L:<id|n> listener | R:<vid|n> ref
+//   | C:<id|n> container (ids 200..299) | S:<id> safe container (ids 300..399) | v:<24 hex> vector
+//   | A:<hid>:<refCount>:<tableLength>:<threshold>:<tableLengthIndex>:<count>:<insertion ranks r/r/..>
+//   | K:<hid>:<refCount>:<size> constant array | P:<pid>:<vid> script pointer | h:<A|K|P>:<hid> shared holder
+// Read back, a variable is printed canonically: "V <key> <vid>=<value>", arrays as
+// A#<n>/<refCount>{key=>value,..} sorted by key text ("!" after a key that find() does not find), constant
+// arrays K#<n>/<refCount>[..], holders numbered by first visit, a holder seen before as A#<n>.
+// After the read-back every array (original and loaded) is USED: find every key, insert 40 fresh keys (rehashes), find all,
+// remove all, destroy; the "e" line says whether the loaded arrays behaved like the originals (ASan watches all of it).
 // The functions c10_write / c10_read are also used by harness/C11.cpp (damaged archives).
 #include <morfuse/Script/Archiver.h>
 #include <morfuse/Script/Class.h>
@@ -14,11 +29,18 @@
 #include <morfuse/Common/OutputInfo.h>
 #include <morfuse/Common/membuf.h>
 #include <morfuse/Common/str.h>
+#include <morfuse/Common/StringDictionary.h>
+#include <morfuse/Common/Vector.h>
+#include <morfuse/Script/ScriptVariable.h>
+#include <morfuse/Script/ScriptMaster.h>
+#include <morfuse/Script/ContainerClass.h>
 #include "common.h"
+#include </usr/include/x86_64-linux-gnu/sys/wait.h>
 
 #include <cstdint>
 #include <cstdio>
 #include <cstring>
+#include <algorithm>
 #include <iostream>
 #include <map>
 #include <memory>
@@ -50,10 +72,17 @@ struct LeafSlot {
     std::unique_ptr<str> s;
     Class* ptr = nullptr;
     std::unique_ptr<SafePtr<Class>> sp;
+    Class** extPtr = nullptr;           // Q inside an object's body: the pointer is a MEMBER of the host object
+    SafePtr<Class>* extSp = nullptr;
+    // V: a script variable
+    std::string vkey;           // * ~ or hex
+    std::vector<std::string> vtoks;
+    long vid = -1;
 };
 
 struct ItemSlot {
     bool isObj = false;
+    bool viaRead = false;       // "N": the reader loads the object with arc.ReadObject<T>() instead of ArchiveObject(obj)
     int cls = 0;
     long id = -1;
     LeafSlot leaf;
@@ -63,14 +92,25 @@ struct ItemSlot {
 static void archiveLeaves(Archiver& arc, std::vector<LeafSlot>* leaves);
 
 // -------------------------------------------------------------------------- host classes
+static std::vector<LeafSlot>* g_pendingBody = nullptr;   // body of the object that ReadObject<T>() is about to create
+static void bindMembers(std::vector<LeafSlot>* leaves, Class** mptr, SafePtr<Class>* msp, size_t n);
+
 #define VERIF_HOST_CLASS(NAME, BASE)                                   \
     class NAME : public BASE {                                          \
         MFUS_CLASS_PROTOTYPE(NAME);                                     \
     public:                                                             \
         std::vector<LeafSlot>* cur = nullptr;                           \
+        std::vector<LeafSlot>* bound = nullptr;                         \
+        Class* mptr[8] = {};             /* the pointers of the body */ \
+        SafePtr<Class> msp[8];           /* live INSIDE the object   */ \
         void Archive(Archiver& arc) override                            \
         {                                                               \
             BASE::Archive(arc);                                         \
+            if (!cur) cur = g_pendingBody;                              \
+            if (!bound || bound == cur) {  /* (an object archived twice keeps the members for its first body) */ \
+                bound = cur;                                            \
+                bindMembers(cur, mptr, msp, 8);                         \
+            }                                                           \
             archiveLeaves(arc, cur);                                    \
         }                                                               \
     };
@@ -138,7 +178,48 @@ static bool parseLeaf(const std::vector<std::string>& t, size_t a, size_t b, Lea
     if ((k == "R" || k == "S") && b - a == 2) { l.kind = k[0]; l.bytes = unhex(t[a + 1]); return true; }
     if (k == "Q" && b - a == 3) { l.kind = 'Q'; l.safe = t[a + 1] == "s"; l.target = t[a + 2] == "n" ? -1 : std::stol(t[a + 2]); return true; }
     if (k == "O" && b - a == 2) { l.kind = 'O'; l.target = std::stol(t[a + 1]); return true; }
+    if (k == "V" && b - a >= 3) {
+        l.kind = 'V'; l.vkey = t[a + 1];
+        for (size_t i = a + 2; i < b; ++i) l.vtoks.push_back(t[i]);
+        l.vid = std::stol(l.vtoks[0].substr(0, l.vtoks[0].find(':')));
+        return true;
+    }
     return false;
+}
+
+// ---------------------------------------------------------------------- script variables
+using ConListT = con::ContainerClass<SafePtr<Listener>>;
+
+struct VNode {
+    long vid = 0;
+    char kind = 'n';
+    std::vector<std::string> f;     // the fields after the kind
+    std::vector<VNode> kids;
+};
+
+static std::vector<std::string> splitOn(const std::string& s, char c)
+{
+    std::vector<std::string> out;
+    std::string cur;
+    for (char ch : s) { if (ch == c) { out.push_back(cur); cur.clear(); } else cur.push_back(ch); }
+    out.push_back(cur);
+    return out;
+}
+
+static bool parseNode(const std::vector<std::string>& toks, size_t& i, VNode& n)
+{
+    if (i >= toks.size()) return false;
+    std::vector<std::string> w = splitOn(toks[i++], ':');
+    if (w.size() < 2 || w[1].size() != 1) return false;
+    n.vid = std::stol(w[0]);
+    n.kind = w[1][0];
+    n.f.assign(w.begin() + 2, w.end());
+    size_t nk = 0;
+    if (n.kind == 'A') { if (n.f.size() < 6) return false; nk = 2 * (size_t)std::stoul(n.f[5]); }
+    if (n.kind == 'K') { if (n.f.size() < 3) return false; nk = (size_t)std::stoul(n.f[2]); }
+    n.kids.resize(nk);
+    for (size_t k = 0; k < nk; ++k) if (!parseNode(toks, i, n.kids[k])) return false;
+    return true;
 }
 
 static bool parseItem(const std::string& line, ItemSlot& it)
@@ -148,9 +229,10 @@ static bool parseItem(const std::string& line, ItemSlot& it)
     std::string x;
     while (is >> x) t.push_back(x);
     if (t.empty()) return false;
-    if (t[0] == "B") {
+    if (t[0] == "B" || t[0] == "N") {
         if (t.size() < 5 || t[3] != "[") return false;
         it.isObj = true;
+        it.viaRead = t[0] == "N";
         it.cls = std::stoi(t[1]);
         if (it.cls < 0 || it.cls > 3) it.cls = 3;
         it.id = std::stol(t[2]);
@@ -176,23 +258,245 @@ struct World {
     std::map<long, Class*> objs;
     std::map<long, int> cls;
     std::vector<ItemSlot> items;
+    std::map<long, ConListT*> conlists;                 // ids 200..399
+    std::map<long, ScriptVariable*> vars;               // top-level script variables by vid
+    std::map<long, ScriptVariable*> registry;           // one extra reference to every holder built (writer)
+    std::map<const void*, int> labels;                  // canonical numbering of holders (printing)
+    std::map<long, bool> built;
+    bool unprotected = false;
+    std::vector<Class*> extras;
+    LeafSlot* curV = nullptr;                           // the script variable whose Archive() is running
+    bool hasHolders = false;                            // some variable is an array / constant array / script pointer
+    bool hasCycle = false;                              // some array contains itself
 
-    void need(long id) { if (id >= 0 && !cls.count(id)) cls[id] = 0; }
-
-    bool build(const CaseSpec& cs)
+    void need(long id)
     {
+        if (id >= 200) { if (!conlists.count(id)) conlists[id] = new ConListT(); return; }
+        if (id >= 0 && !cls.count(id)) cls[id] = 0;
+    }
+
+    void scanNode(const VNode& n, std::vector<long>& open)
+    {
+        if (n.kind == 'A' || n.kind == 'K' || n.kind == 'P' || n.kind == 'h') hasHolders = true;
+        if (n.kind == 'h' && n.f.size() > 1) for (long h : open) if (h == std::stol(n.f[1])) hasCycle = true;
+        if (n.kind == 'A' || n.kind == 'K') open.push_back(std::stol(n.f[0]));
+        for (const VNode& k : n.kids) scanNode(k, open);
+        if (n.kind == 'A' || n.kind == 'K') open.pop_back();
+    }
+
+    void needNode(const VNode& n)
+    {
+        if ((n.kind == 'L' || n.kind == 'C' || n.kind == 'S') && !n.f.empty() && n.f[0] != "n") {
+            const long id = std::stol(n.f[0]);
+            if (n.kind == 'L' && !cls.count(id)) cls[id] = 2;      // a listener
+            else need(id);
+        }
+        if (n.kind == 'R' && !n.f.empty() && n.f[0] != "n") {
+            const long v = std::stol(n.f[0]);
+            if (!vars.count(v)) vars[v] = new ScriptVariable();       // a variable that is not archived
+        }
+        for (const VNode& k : n.kids) needNode(k);
+    }
+
+    void needLeaf(LeafSlot& l)
+    {
+        if (l.kind == 'Q' || l.kind == 'O') need(l.target);
+        if (l.kind == 'V') {
+            VNode n; size_t i = 0;
+            if (parseNode(l.vtoks, i, n)) { needNode(n); std::vector<long> open; scanNode(n, open); }
+            if (!vars.count(l.vid)) vars[l.vid] = new ScriptVariable();
+        }
+    }
+
+    // the address under which an identity is entered in the archive
+    void* addrOf(long id)
+    {
+        if (id >= 300) return (void*)static_cast<AbstractClass*>(conlists[id]);
+        if (id >= 200) return (void*)static_cast<con::Container<SafePtr<Listener>>*>(conlists[id]);
+        return (void*)objs[id];
+    }
+
+    bool reading = false;
+
+    bool build(const CaseSpec& cs, bool forReading = false)
+    {
+        reading = forReading;
         items.clear();
         items.resize(cs.items.size());
         for (size_t i = 0; i < cs.items.size(); ++i)
             if (!parseItem(cs.items[i], items[i])) return false;
         for (ItemSlot& it : items) if (it.isObj && !cls.count(it.id)) cls[it.id] = it.cls;
         for (ItemSlot& it : items) {
-            if (it.isObj) { for (LeafSlot& l : it.body) if (l.kind == 'Q' || l.kind == 'O') need(l.target); }
-            else if (it.leaf.kind == 'Q' || it.leaf.kind == 'O') need(it.leaf.target);
+            if (it.isObj) { for (LeafSlot& l : it.body) needLeaf(l); }
+            else needLeaf(it.leaf);
         }
-        for (auto& kv : cls) objs[kv.first] = newHost(kv.second);
+        std::map<long, bool> loaded;                 // objects the reader gets from arc.ReadObject<T>()
+        if (reading) for (ItemSlot& it : items) if (it.isObj && it.viaRead) loaded[it.id] = true;
+        for (auto& kv : cls) objs[kv.first] = loaded.count(kv.first) ? nullptr : newHost(kv.second);
         return true;
     }
+
+    // ---- building the value a token tree describes (writer side)
+    static StringDictionary& dict() { return ScriptContext::Get().GetDirector().GetDictionary(); }
+
+    static const_str constOf(const std::string& hex)
+    {
+        if (hex == "~") return const_str(0);
+        const std::string b = unhexS(hex);
+        return dict().Add(str(b.c_str()));
+    }
+
+    static std::string unhexS(const std::string& h);
+
+    void buildInto(ScriptVariable& dst, const VNode& n)
+    {
+        switch (n.kind) {
+        case 's': { const std::string b = unhexS(n.f[0]); str s; if (!b.empty()) s.assign(b.data(), b.size()); dst.setStringValue(s); break; }
+        case 'i': dst.setLongValue(std::stoull(n.f[0], nullptr, 16)); break;
+        case 'f': { uint32_t w = (uint32_t)std::stoull(n.f[0], nullptr, 16); dst.setFloatValue(0.0f); std::memcpy(&dst.GetData().floatValue, &w, 4); break; }
+        case 'c': dst.setCharValue((char)std::stoull(n.f[0], nullptr, 16)); break;
+        case 'k': dst.setConstStringValue(constOf(n.f[0])); break;
+        case 'L': dst.setListenerValue(n.f[0] == "n" ? nullptr : static_cast<Listener*>(objs[std::stol(n.f[0])])); break;
+        case 'R': dst.setRefValue(n.f[0] == "n" ? nullptr : vars[std::stol(n.f[0])]); break;
+        case 'C': dst.setContainerValue(n.f[0] == "n" ? nullptr : conlists[std::stol(n.f[0])]); break;
+        case 'S': dst.setSafeContainerValue(conlists[std::stol(n.f[0])]); break;
+        case 'v': { const std::string b = unhexS(n.f[0]); dst.setVectorValue(Vector()); std::memcpy(dst.GetData().vectorValue, b.data(), 12); break; }
+        case 'P': dst.newPointer(); break;
+        case 'h': dst = *registry[std::stol(n.f[1])]; break;
+        case 'K': {
+            const long hid = std::stol(n.f[0]);
+            ScriptVariable* el = dst.createConstArrayValue(n.kids.size());
+            registry[hid] = new ScriptVariable(dst);
+            for (size_t i = 0; i < n.kids.size(); ++i) buildInto(el[i], n.kids[i]);
+            break;
+        }
+        case 'A': {
+            const long hid = std::stol(n.f[0]);
+            const size_t cnt = n.kids.size() / 2;
+            // the history of the array: events in time order, "<i>" = insert entry i (place in the archive),
+            // "d<hex>" = insert a dummy integer key, "r<hex>" = remove that key again (remove never shrinks the table)
+            std::vector<std::string> ev = (n.f.size() > 6 && n.f[6] != "-") ? splitOn(n.f[6], '/') : std::vector<std::string>();
+            if (ev.empty()) for (size_t i = 0; i < cnt; ++i) ev.push_back(std::to_string(i));
+            std::vector<std::unique_ptr<ScriptVariable>> keys(cnt), vals(cnt);
+            std::vector<bool> self(cnt, false);
+            for (size_t i = 0; i < cnt; ++i) {            // archive order: a holder is built before it is shared
+                keys[i].reset(new ScriptVariable()); vals[i].reset(new ScriptVariable());
+                buildInto(*keys[i], n.kids[2 * i]);
+                const VNode& vn = n.kids[2 * i + 1];
+                if (vn.kind == 'h' && std::stol(vn.f[1]) == hid && !registry.count(hid)) self[i] = true;   // the array contains itself
+                else buildInto(*vals[i], vn);
+            }
+            if (ev.empty()) {                             // an array that was emptied again
+                ScriptVariable k, v, none;
+                k.setIntValue(0); v.setIntValue(0);
+                dst.setArrayAtRef(k, v);
+                dst.setArrayAtRef(k, none);
+            }
+            for (const std::string& e : ev) {
+                if (e.empty()) continue;
+                if (e[0] == 'd' || e[0] == 'r') {
+                    ScriptVariable k, v, none;
+                    k.setLongValue(std::stoull(e.substr(1), nullptr, 16)); v.setIntValue(0);
+                    dst.setArrayAtRef(k, e[0] == 'd' ? v : none);
+                    continue;
+                }
+                const size_t i = (size_t)std::stoul(e);
+                if (i >= cnt) continue;
+                if (self[i]) { ScriptVariable me(dst); dst.setArrayAtRef(*keys[i], me); }
+                else dst.setArrayAtRef(*keys[i], *vals[i]);
+            }
+            registry[hid] = new ScriptVariable(dst);
+            break;
+        }
+        default: break;     // 'n'
+        }
+    }
+
+    // ---- canonical text of a variable that was read
+    long vidOf(const void* p) const
+    {
+        for (auto& kv : vars) if ((const void*)kv.second == p) return kv.first;
+        return -2;
+    }
+
+    long conOf(const void* p, bool asClass) const
+    {
+        for (auto& kv : conlists) {
+            const void* a = asClass ? (const void*)static_cast<const AbstractClass*>(kv.second)
+                                    : (const void*)static_cast<const con::Container<SafePtr<Listener>>*>(kv.second);
+            if (a == p && (asClass == (kv.first >= 300))) return kv.first;
+        }
+        return -2;
+    }
+
+    static std::string tgt(const void* p, long id) { return !p ? "n" : id >= 0 ? std::to_string(id) : std::string("x"); }
+
+    std::string holderText(char kind, const void* h, ScriptVariable& v)
+    {
+        auto it = labels.find(h);
+        if (!h) return "h:n";
+        if (it != labels.end()) return std::string(1, kind) + "#" + std::to_string(it->second);
+        const int l = (int)labels.size() + 1;
+        labels[h] = l;
+        std::string out = std::string(1, kind) + "#" + std::to_string(l);
+        if (kind == 'A') {
+            ScriptArrayHolder* ah = v.GetData().arrayValue;
+            std::vector<std::pair<std::string, ScriptVariable*>> es;
+            con::map_enum<ScriptVariable, ScriptVariable> en(ah->arrayValue);
+            for (const ScriptVariable* k = en.NextKey(); k; k = en.NextKey()) {
+                ScriptVariable* val = const_cast<ScriptVariable*>(en.CurrentValue());
+                std::string ks = valueText(*const_cast<ScriptVariable*>(k));
+                bool found = false;
+                try { found = ah->arrayValue.find(*k) == val; } catch (...) { found = false; }
+                if (!found) ks += "!";
+                es.push_back({ ks, val });
+            }
+            std::sort(es.begin(), es.end(), [](const std::pair<std::string, ScriptVariable*>& a, const std::pair<std::string, ScriptVariable*>& b) { return a.first < b.first; });
+            out += "/" + std::to_string(ah->refCount) + "{";
+            for (size_t i = 0; i < es.size(); ++i) { if (i) out += ","; out += es[i].first + "=>" + valueText(*es[i].second); }
+            out += "}";
+        } else if (kind == 'K') {
+            ScriptConstArrayHolder* ch = v.GetData().constArrayValue;
+            out += "/" + std::to_string(ch->refCount) + "[";
+            for (size_t i = 1; i <= ch->size; ++i) { if (i > 1) out += ","; out += valueText(ch->constArrayValue[i]); }
+            out += "]";
+        } else {
+            ScriptPointer* sp = v.GetData().pointerValue;
+            out += "(";
+            for (size_t i = 1; i <= sp->list.NumObjects(); ++i) { if (i > 1) out += ","; const void* t = sp->list.ObjectAt(i); out += tgt(t, vidOf(t)); }
+            out += ")";
+        }
+        return out;
+    }
+
+    std::string valueText(ScriptVariable& v)
+    {
+        switch (v.GetType()) {
+        case variableType_e::None: return "n";
+        case variableType_e::String: { const str* s = v.GetData().stringValue; return "s:" + hexOfS(std::string(s->c_str(), s->length())); }
+        case variableType_e::Integer: return "i:" + hexNumS((uint64_t)v.GetData().long64Value);
+        case variableType_e::Float: { uint32_t w; std::memcpy(&w, &v.GetData().floatValue, 4); return "f:" + hexNumS(w); }
+        case variableType_e::Char: return "c:" + hexNumS((unsigned char)v.GetData().charValue);
+        case variableType_e::ConstString: {
+            const const_str cs = v.GetData().constStringValue;
+            if (cs == const_str(0)) return "k:~";
+            const str& s = dict().Get(cs);
+            return "k:" + hexOfS(std::string(s.c_str(), s.length()));
+        }
+        case variableType_e::Listener: { const void* p = v.GetData().listenerValue->Pointer(); return "L:" + tgt(p, p ? idOf(p) : -1); }
+        case variableType_e::Ref: { const void* p = v.GetData().refValue; return "R:" + tgt(p, p ? vidOf(p) : -1); }
+        case variableType_e::Container: { const void* p = v.GetData().containerValue; return "C:" + tgt(p, p ? conOf(p, false) : -1); }
+        case variableType_e::SafeContainer: { const void* p = (const void*)static_cast<SafePtrBase*>(v.GetData().safeContainerValue)->Pointer(); return "S:" + tgt(p, p ? conOf(p, true) : -1); }
+        case variableType_e::Array: return holderText('A', v.GetData().arrayValue, v);
+        case variableType_e::ConstArray: return holderText('K', v.GetData().constArrayValue, v);
+        case variableType_e::Pointer: return holderText('P', v.GetData().pointerValue, v);
+        case variableType_e::Vector: return "v:" + hexOfS(std::string((const char*)v.GetData().vectorValue, 12));
+        default: return "?";
+        }
+    }
+
+    static std::string hexOfS(const std::string& b);
+    static std::string hexNumS(uint64_t v);
 
     // loads the values to be written into the storage (writer) or clears it (reader)
     void prepare(LeafSlot& l, bool writing)
@@ -214,8 +518,18 @@ struct World {
             if (writing && !l.bytes.empty()) std::memcpy(l.raw.data(), l.bytes.data(), l.bytes.size());
             break;
         case 'S':
-            if (writing) l.s.reset(new str(l.bytes.c_str(), l.bytes.size()));
-            else l.s.reset(new str());
+            // length-aware: the bytes may contain NUL anywhere (str(text, len) stops at a leading NUL)
+            l.s.reset(new str());
+            if (writing && !l.bytes.empty()) l.s->assign(l.bytes.data(), l.bytes.size());
+            break;
+        case 'V':
+            if (!writing) vars[l.vid]->GetData().long64Value = (int64_t)0x5A5A5A5A5A5A5A5AULL;   // "never assigned" mark (type None)
+            if (writing) {
+                VNode n; size_t i = 0;
+                ScriptVariable* var = vars[l.vid];
+                if (parseNode(l.vtoks, i, n) && !built.count(l.vid)) { built[l.vid] = true; buildInto(*var, n); }
+                if (l.vkey != "*") var->SetKey(constOf(l.vkey == "-" ? std::string("~") : l.vkey));
+            }
             break;
         case 'Q':
             l.ptr = (writing && l.target >= 0) ? objs[l.target] : nullptr;
@@ -237,7 +551,21 @@ struct World {
     void perform(Archiver& arc)
     {
         for (ItemSlot& it : items) {
-            if (it.isObj) {
+            if (it.isObj && it.viaRead && reading) {
+                // the second way of loading: the Archiver creates the instance; on failure the host owns nothing
+                g_pendingBody = &it.body;
+                Class* o = nullptr;
+                switch (cls[it.id]) {
+                case 0: o = arc.ReadObject<VObjA>(); break;
+                case 1: o = arc.ReadObject<VObjB>(); break;
+                case 2: o = arc.ReadObject<VLis>(); break;
+                default: o = arc.ReadObject<VObj>(); break;
+                }
+                g_pendingBody = nullptr;
+                if (objs[it.id]) extras.push_back(objs[it.id]);       // (the same identity loaded twice: both instances stay alive)
+                objs[it.id] = o;
+                setCur(o, cls[it.id], nullptr);
+            } else if (it.isObj) {
                 Class* o = objs[it.id];
                 setCur(o, cls[it.id], &it.body);
                 arc.ArchiveObject(*o);
@@ -276,10 +604,20 @@ struct World {
         case 'R': return "R " + hexOf(std::string(l.raw.begin(), l.raw.end()));
         case 'S': return "S " + hexOf(std::string(l.s->c_str(), l.s->length()));
         case 'Q': {
-            const void* p = l.safe ? (const void*)l.sp->Pointer() : (const void*)l.ptr;
+            const void* p = l.safe ? (const void*)(l.extSp ? l.extSp->Pointer() : l.sp->Pointer()) : (const void*)(l.extPtr ? *l.extPtr : l.ptr);
             std::string t = "n";
             if (p) { long id = idOf(p); t = id >= 0 ? std::to_string(id) : std::string("x"); }
             return std::string("Q ") + (l.safe ? "s " : "p ") + t;
+        }
+        case 'V': {
+            ScriptVariable* var = const_cast<World*>(this)->vars[l.vid];
+            std::string key = "*";
+            if (l.vkey != "*") {
+                const const_str cs = var->GetKey();
+                if (cs == const_str(0)) key = "~";
+                else { const str& s = dict().Get(cs); key = hexOfS(std::string(s.c_str(), s.length())); }
+            }
+            return "V " + key + " " + std::to_string(l.vid) + "=" + const_cast<World*>(this)->valueText(*var);
         }
         default: return "O " + std::to_string(l.target);
         }
@@ -288,15 +626,136 @@ struct World {
     std::string showItem(const ItemSlot& it) const
     {
         if (!it.isObj) return showLeaf(it.leaf);
-        std::string out = "B " + std::to_string(it.cls) + " " + std::to_string(it.id) + " [";
+        std::string out = std::string(it.viaRead ? "N " : "B ") + std::to_string(it.cls) + " " + std::to_string(it.id) + " [";
         for (size_t i = 0; i < it.body.size(); ++i) { out += i ? " ; " : " "; out += showLeaf(it.body[i]); }
         return out + " ]";
     }
 
+    // ---- using the arrays after the round trip: find every key, grow (forces two rehashes), find again, empty
+    void collectArrays(ScriptVariable& v, std::vector<ScriptArrayHolder*>& out, std::map<const void*, bool>& seen, int depth)
+    {
+        if (depth > 64) return;
+        if (v.GetType() == variableType_e::Array) {
+            ScriptArrayHolder* h = v.GetData().arrayValue;
+            if (!h || seen.count(h)) return;
+            seen[h] = true;
+            out.push_back(h);
+            std::vector<std::pair<std::string, ScriptVariable*>> es;
+            con::map_enum<ScriptVariable, ScriptVariable> en(h->arrayValue);
+            for (const ScriptVariable* k = en.NextKey(); k; k = en.NextKey())
+                es.push_back({ valueText(*const_cast<ScriptVariable*>(k)), const_cast<ScriptVariable*>(en.CurrentValue()) });
+            std::sort(es.begin(), es.end(), [](const std::pair<std::string, ScriptVariable*>& a, const std::pair<std::string, ScriptVariable*>& b) { return a.first < b.first; });
+            for (auto& e : es) collectArrays(*e.second, out, seen, depth + 1);
+        } else if (v.GetType() == variableType_e::ConstArray) {
+            ScriptConstArrayHolder* h = v.GetData().constArrayValue;
+            if (!h || seen.count(h)) return;
+            seen[h] = true;
+            if (h->constArrayValue) for (size_t i = 1; i <= h->size; ++i) collectArrays(h->constArrayValue[i], out, seen, depth + 1);
+        }
+    }
+
+    std::string exercise()
+    {
+        std::vector<ScriptArrayHolder*> arrs;
+        std::map<const void*, bool> seen;
+        for (ItemSlot& it : items) {
+            if (it.isObj) { for (LeafSlot& l : it.body) if (l.kind == 'V') collectArrays(*vars[l.vid], arrs, seen, 0); }
+            else if (it.leaf.kind == 'V') collectArrays(*vars[it.leaf.vid], arrs, seen, 0);
+        }
+        if (arrs.empty()) return "-";
+        std::map<const void*, bool> prot;
+        for (auto& kv : registry) protect(*kv.second, prot, 0);
+        for (auto& kv : vars) protect(*kv.second, prot, 0);
+        std::string out;
+        int no = 0;
+        for (ScriptArrayHolder* h : arrs) {
+            std::vector<std::unique_ptr<ScriptVariable>> keys;
+            size_t found = 0;
+            {
+                con::map_enum<ScriptVariable, ScriptVariable> en(h->arrayValue);
+                for (const ScriptVariable* k = en.NextKey(); k; k = en.NextKey()) {
+                    keys.emplace_back(new ScriptVariable(*k));
+                    if (h->arrayValue.find(*k) == en.CurrentValue()) ++found;
+                }
+            }
+            const size_t s0 = h->arrayValue.size();
+            for (int j = 0; j < 40; ++j) {                         // 1 -> 7 -> 17 -> 37 -> 79 buckets on the way
+                std::unique_ptr<ScriptVariable> k(new ScriptVariable()), v(new ScriptVariable());
+                k->setLongValue(0x7E57AB0000ULL + (uint64_t)(977 * j)); v->setIntValue((uint32_t)j);
+                h->arrayValue[*k] = *v;
+                keys.push_back(std::move(k));
+            }
+            const size_t s1 = h->arrayValue.size();
+            size_t found1 = 0;
+            for (auto& k : keys) if (h->arrayValue.find(*k)) ++found1;
+            std::vector<std::string> names;
+            {
+                con::map_enum<ScriptVariable, ScriptVariable> en(h->arrayValue);
+                for (const ScriptVariable* k = en.NextKey(); k; k = en.NextKey()) names.push_back(valueText(*const_cast<ScriptVariable*>(k)));
+            }
+            std::sort(names.begin(), names.end());
+            size_t hsh = 1469598103u;
+            for (const std::string& nm : names) for (unsigned char c : nm) hsh = (hsh ^ c) * 16777619u;
+            size_t removed = 0;
+            for (auto& k : keys) if (h->arrayValue.remove(*k)) ++removed;
+            size_t left = 0;
+            {
+                con::map_enum<ScriptVariable, ScriptVariable> en(h->arrayValue);
+                for (const ScriptVariable* k = en.NextKey(); k; k = en.NextKey()) ++left;
+            }
+            char buf[200];
+            std::snprintf(buf, sizeof buf, "[%d:%zu/%zu,%zu/%zu/%zu#%zx,-%zu=%zu/%zu]", ++no, found, s0, found1, s1, names.size(), hsh & 0xffffff,
+                          removed, h->arrayValue.size(), left);
+            out += buf;
+        }
+        // everything is empty now: no cycles are left, the holders get their real reference counts back and are destroyed with the world
+        for (auto& kv : prot) {
+            bool isArr = false;
+            for (ScriptArrayHolder* h : arrs) if ((const void*)h == kv.first) isArr = true;
+            if (isArr) ((ScriptArrayHolder*)kv.first)->refCount -= 1u << 20;
+            else ((ScriptConstArrayHolder*)kv.first)->refCount -= 1u << 20;
+        }
+        unprotected = true;
+        return out;
+    }
+
+    // An array that (directly or indirectly) contains itself is a reference cycle; the library
+    // recurses without end when such a holder is freed (ClearInternal deletes the holder again
+    // from inside its own destructor).  That is not what this harness is about: before tearing a
+    // world down every reachable holder gets a reference count that never reaches zero.
+    void protect(ScriptVariable& v, std::map<const void*, bool>& seen, int depth)
+    {
+        if (depth > 64) return;
+        if (v.GetType() == variableType_e::Array) {
+            ScriptArrayHolder* h = v.GetData().arrayValue;
+            if (!h || seen.count(h)) return;
+            seen[h] = true;
+            h->refCount += 1u << 20;
+            con::map_enum<ScriptVariable, ScriptVariable> en(h->arrayValue);
+            for (const ScriptVariable* k = en.NextKey(); k; k = en.NextKey())
+                protect(*const_cast<ScriptVariable*>(en.CurrentValue()), seen, depth + 1);
+        } else if (v.GetType() == variableType_e::ConstArray) {
+            ScriptConstArrayHolder* h = v.GetData().constArrayValue;
+            if (!h || seen.count(h)) return;
+            seen[h] = true;
+            h->refCount += 1u << 20;
+            if (h->constArrayValue) for (size_t i = 1; i <= h->size; ++i) protect(h->constArrayValue[i], seen, depth + 1);
+        }
+    }
+
     ~World()
     {
+        std::map<const void*, bool> seen;
+        if (!unprotected) {
+            for (auto& kv : registry) protect(*kv.second, seen, 0);
+            for (auto& kv : vars) protect(*kv.second, seen, 0);
+        }
+        for (auto& kv : registry) delete kv.second;
+        for (auto& kv : vars) delete kv.second;      // script variables (and their weak pointers) first
         items.clear();                       // the weak pointers go first
-        for (auto& kv : objs) delete kv.second;
+        for (auto& kv : objs) if (kv.second) delete kv.second;
+        for (Class* o : extras) delete o;
+        for (auto& kv : conlists) delete kv.second;
     }
 };
 
@@ -320,11 +779,36 @@ void World::doLeaf(Archiver& arc, LeafSlot& l)
     case 'R': arc.ArchiveRaw(l.raw.data(), l.raw.size()); break;
     case 'S': mfuse::Archive(arc, *l.s); break;
     case 'Q':
-        if (l.safe) arc.ArchiveSafePointer(*l.sp);
-        else arc.ArchiveObjectPointer(l.ptr);
+        if (l.safe) arc.ArchiveSafePointer(l.extSp ? *l.extSp : *l.sp);
+        else arc.ArchiveObjectPointer(l.extPtr ? *l.extPtr : l.ptr);
         break;
-    case 'O': arc.ArchiveObjectPosition(objs[l.target]); break;
+    case 'O': arc.ArchiveObjectPosition(addrOf(l.target)); break;
+    case 'V':
+        curV = &l;
+        if (l.vkey == "*") vars[l.vid]->ArchiveInternal(arc);
+        else vars[l.vid]->Archive(arc);
+        curV = nullptr;
+        break;
     default: break;
+    }
+}
+
+std::string World::unhexS(const std::string& h) { return unhex(h); }
+std::string World::hexOfS(const std::string& b) { return hexOf(b); }
+std::string World::hexNumS(uint64_t v) { return hexNum(v); }
+
+static void bindMembers(std::vector<LeafSlot>* leaves, Class** mptr, SafePtr<Class>* msp, size_t n)
+{
+    if (!leaves) return;
+    size_t k = 0;
+    for (LeafSlot& l : *leaves) {
+        if (l.kind != 'Q') continue;
+        if (k < n) {
+            l.extPtr = &mptr[k]; l.extSp = &msp[k];
+            if (l.ptr) mptr[k] = l.ptr;                              // (writer: the values to be written)
+            if (l.sp && l.sp->Pointer()) msp[k] = l.sp->Pointer();
+        }
+        ++k;
     }
 }
 
@@ -370,7 +854,10 @@ static version_info_t makeInfo(const CaseSpec& cs)
 }
 
 // writes the items; bytesOut = what reached the stream
-std::string c10_write(const CaseSpec& cs, std::string& bytesOut)
+std::string c10_write_x(const CaseSpec& cs, std::string& bytesOut, std::string* exerciseOut);
+std::string c10_write(const CaseSpec& cs, std::string& bytesOut) { return c10_write_x(cs, bytesOut, nullptr); }
+
+std::string c10_write_x(const CaseSpec& cs, std::string& bytesOut, std::string* exerciseOut)
 {
     World w;
     if (!w.build(cs)) return "exc bad-case";
@@ -389,25 +876,66 @@ std::string c10_write(const CaseSpec& cs, std::string& bytesOut)
     });
     g_world = nullptr;
     bytesOut.assign(buf.data(), n);
+    if (r == "ok" && exerciseOut) *exerciseOut = w.exercise();          // the ORIGINAL arrays, after they were archived
     return r;
 }
 
-// reads bytes with the calls of the item sequence; lines = the items as read back
-std::string c10_read(const CaseSpec& cs, const std::string& bytes, std::vector<std::string>& lines)
+// reads bytes with the calls of the item sequence; lines = the items as read back.
+// When the read fails and script variables with holders are involved, what the host must do next -
+// destroy the variables it was loading - is tried in a forked child: if that crashes, the outcome
+// gets the suffix " !destroy" (and the parent keeps the objects alive).
+std::string c10_read_x(const CaseSpec& cs, const std::string& bytes, std::vector<std::string>& lines, std::string* exerciseOut);
+std::string c10_read(const CaseSpec& cs, const std::string& bytes, std::vector<std::string>& lines) { return c10_read_x(cs, bytes, lines, nullptr); }
+
+std::string c10_read_x(const CaseSpec& cs, const std::string& bytes, std::vector<std::string>& lines, std::string* exerciseOut)
 {
-    World w;
-    if (!w.build(cs)) return "exc bad-case";
-    w.prepareAll(false);
-    g_world = &w;
+    World* w = new World();
+    if (!w->build(cs, true)) { delete w; return "exc bad-case"; }
+    w->prepareAll(false);
+    g_world = w;
     const version_info_t info = makeInfo(cs);
     std::string r = guarded([&]() {
         imemstream is(bytes.data(), bytes.size());
         Archiver arc = Archiver::CreateRead(is, info);
-        w.perform(arc);
+        w->perform(arc);
     });
     g_world = nullptr;
     lines.clear();
-    if (r == "ok") for (const ItemSlot& it : w.items) lines.push_back(w.showItem(it));
+    if (r == "ok") for (const ItemSlot& it : w->items) lines.push_back(w->showItem(it));
+    if (r == "ok" && exerciseOut) *exerciseOut = w->exercise();          // the LOADED arrays
+    if (r != "ok" && w->hasHolders) {
+        if (w->hasCycle) return r;                 // a cycle of arrays cannot be destroyed anyway (see World::protect): keep it
+        // only the variable whose Archive() was interrupted can be in a half-loaded state
+        bool risky = false;
+        if (w->curV) for (const std::string& t : w->curV->vtoks) {
+            const size_t c = t.find(':');
+            if (c != std::string::npos && c + 1 < t.size() && std::strchr("AKPh", t[c + 1])) risky = true;
+        }
+        if (!risky) { delete w; return r; }
+        ScriptVariable* top = w->vars[w->curV->vid];
+        const variableType_e ty = top->GetType();
+        if ((ty == variableType_e::Array || ty == variableType_e::ConstArray || ty == variableType_e::Pointer) &&
+            (uint64_t)top->GetData().long64Value == 0x5A5A5A5A5A5A5A5AULL)
+            return r + " !destroy";                // type set, holder pointer never assigned: ~ScriptVariable dereferences it
+        // the interrupted variable is further inside (an array that was being filled): try the destruction in a child,
+        // for small archives only (a fork of a sanitized process is slow); otherwise the objects are just kept
+        if (bytes.size() > 600) return r;
+        static unsigned long probes = 0;           // the first 300 such failures of a run and every 16th after them
+        if (++probes > 300 && probes % 16 != 0) return r;
+        std::fflush(stdout); std::fflush(stderr);
+        const pid_t pid = fork();
+        if (pid == 0) {
+            alarm(20);
+            w->unprotected = true;
+            delete w;
+            _exit(0);
+        }
+        int status = 0;
+        if (pid > 0) waitpid(pid, &status, 0);
+        if (pid < 0 || !(WIFEXITED(status) && WEXITSTATUS(status) == 0)) r += " !destroy";
+        return r;                                  // the parent never destroys these objects
+    }
+    delete w;
     return r;
 }
 
@@ -441,16 +969,22 @@ static void runCase(const std::string& id, const CaseSpec& cs)
     std::fflush(stdout);
     verif_case_watchdog(cs.items.size());
     std::string bytes;
-    std::string wr = c10_write(cs, bytes);
+    std::string exOrig, exLoaded;
+    std::string wr = c10_write_x(cs, bytes, &exOrig);       // (the original arrays are exercised and destroyed in here)
     if (wr != "ok") {
         std::printf("b ! %s\n", wr.c_str());
     } else {
         std::printf("b %s\n", hexOf(bytes).c_str());
         std::fflush(stdout);
         std::vector<std::string> lines;
-        std::string rr = c10_read(cs, bytes, lines);
+        std::string rr = c10_read_x(cs, bytes, lines, &exLoaded);   // read, print, exercise, destroy
         if (rr == "ok") for (const std::string& l : lines) std::printf("m %s\n", l.c_str());
         else for (size_t i = 0; i < (cs.items.empty() ? 1 : cs.items.size()); ++i) std::printf("m ! %s\n", rr.c_str());
+        // e: every loaded array was searched, grown by 40 keys, searched again, emptied and destroyed - as the original was
+        if (rr == "ok") {
+            if (exOrig == exLoaded) std::printf("e ok %s\n", exLoaded.c_str());
+            else std::printf("e DIFF original=%s loaded=%s\n", exOrig.c_str(), exLoaded.c_str());
+        }
     }
     verif_watchdog_off();
     std::printf("end\n");
@@ -470,5 +1004,6 @@ __attribute__((weak)) int main()
         else if (!line.empty()) cs.items.push_back(line);
     }
     flush();
-    return 0;
+    std::fflush(stdout);
+    _exit(0);      // not exit(): the static BlockAlloc of con::set frees its blocks through a memory manager that is already gone
 }
